@@ -23,7 +23,9 @@ MANIFEST = dict(
          'no double underscore -- the unrestricted cpp statement is refuted by the witness `__x`, which the configured encoding '
          'rule ^_{2,} rewrites by design); type `all` raises ValueError; the lru_cache is transparent; for ANY configuration satisfying the computed '
          'side condition chk_sound the soundness statement holds, and it is refuted for an override that reserves a handler-shaped '
-         'name (known finding F-STROP-HANDLER-UNVERIFIED); in a tree whose strop re-verifies its result (recognised by T1) the '
+         'name (finding F-STROP-HANDLER-UNVERIFIED, fixed); chk_base is spelled out as a decidable predicate (chk_base_spelled_out); '
+         'outside it the current code returns invalid tokens for affixes outside the identifier alphabet (strop_illegal_affix_refuted, '
+         'known finding F-STROP-ILLEGAL-AFFIX, affix-override sweep in both tiers); in a tree whose strop re-verifies its result (recognised by T1) the '
          'statement holds for every configuration with the validity conditions only (strop_sound_any_config), and '
          'strop_override_state says which case is live now; Python\'s reserved list covers keyword.kwlist+dir(builtins) of the '
          'interpreter; NOT A KEYWORD OF THE LANGUAGE: against committed independent tables (Gen/StropKeywords.v = '
@@ -379,10 +381,9 @@ def main(chk: core.Check, replay: typing.Optional[str] = None) -> int:
 
     # known finding: probe its witness on the implementation (every run, both tiers)
     FID = 'F-STROP-HANDLER-UNVERIFIED'
-    if chk.known_entry(FID) is None:   # fragment not merged into known_findings.json yet: read the committed fragment
-        frag = os.path.join(core.VERIF, 'known_findings.d', 'C09.json')
-        if os.path.exists(frag):
-            chk.known.extend(e for e in json.load(open(frag))['findings'] if PROP in e['properties'])
+    frag = os.path.join(core.VERIF, 'known_findings.d', 'C09.json')   # entries not merged into known_findings.json yet
+    if os.path.exists(frag):
+        chk.known.extend(e for e in json.load(open(frag))['findings'] if PROP in e['properties'] and chk.known_entry(e['id']) is None)
     kf_live = False
     if chk.is_known(FID):
         w = chk.known_entry(FID)['witness']
@@ -398,6 +399,43 @@ def main(chk: core.Check, replay: typing.Optional[str] = None) -> int:
 
     def handler_shaped(ln: str, t: str) -> bool:
         return ln in ('c', 'cpp') and t.startswith('_') and (len(t) == 1 or not (t[1] == '_' or 'A' <= t[1] <= 'Z'))
+
+    # known finding F-STROP-ILLEGAL-AFFIX: probe, then sweep overrides whose stropping affix is outside the identifier alphabet
+    FID2 = 'F-STROP-ILLEGAL-AFFIX'
+    kf2_live = False
+    if chk.is_known(FID2):
+        w = chk.known_entry(FID2)['witness']
+        r, _ = run_impl([[w['lang'], w['id_type'], w['input']]], overrides=w['overrides'])
+        kf2_live = r[0] == w['got']
+        if kf2_live:
+            chk.report_known(FID2)
+    stats['illegal_affix_finding_live'] = kf2_live
+    stats['illegal_affix_instances'] = 0
+    n_aff = 0
+    if not replay:
+        for ov in AFFIX_OVERRIDES:
+            od = dump_config_overrides(ov)
+            if od is None:
+                broken.append('affix override %r: configuration dump failed' % (ov,))
+                continue
+            oo = Oracle(od)
+            acases = [[ln, ty, w] for ln in LANGS for ty in ['any', 'path', 'macro']
+                      for w in ['if', 'foo', '_A', 'int8_t', 'a b', '1x', 'None', 'EFOO', 'x']]
+            ai, _ = run_impl(acases, overrides=ov)
+            bad_chars = set(ch for v in ov.values() for ch in v if not (ch.isascii() and (ch.isalnum() or ch == '_')))
+            for c, g in zip(acases, ai):
+                n_aff += 1
+                if not g.startswith('ok:'):
+                    continue
+                t = g[3:]
+                why = None if (IDENT.match(t) and t not in oo.cfg[c[0]]['reserved'] and not oo.pattern_hit(c[0], c[1], t)) else \
+                    'returned token %r is not a valid unreserved identifier' % t
+                if why and kf2_live and bad_chars and any(ch in t for ch in bad_chars):
+                    stats['illegal_affix_instances'] += 1      # trigger of the known finding (Coq: strop_illegal_affix_refuted)
+                    continue
+                if why:
+                    bad_oracle.append((-1, 'affix override %r: %r -> %r: %s' % (ov, c, g, why)))
+    stats['illegal_affix_cases'] = n_aff
 
     # configuration overrides, both tiers: implementation vs. the extracted model run with the override configuration as data
     # (Gen_Strop.cfgs_ov, driver `lang@k`) and vs. the property oracle built from the override dump
@@ -489,6 +527,9 @@ def main(chk: core.Check, replay: typing.Optional[str] = None) -> int:
     return chk.finish()
 
 
+AFFIX_OVERRIDES = [{'stropping_suffix': '-'}, {'stropping_suffix': '/'}, {'stropping_suffix': '/../x'}, {'stropping_suffix': '..'},
+                   {'stropping_suffix': ' '}, {'stropping_suffix': ''}, {'stropping_suffix': '\u00e9'}, {'stropping_prefix': '-'},
+                   {'stropping_prefix': '', 'stropping_suffix': ''}, {'stropping_prefix': '_', 'stropping_suffix': '$x'}]
 ISO_CONFIGS = [None, {'stropping_prefix': '_pre_', 'stropping_suffix': '_post_'}, {'reserved_identifiers': ['foo', 'qz_7']},
                {'encoding_prefix': '_u'}]
 ISO_CASES = [['any', 'if'], ['any', 'foo'], ['any', 'qz_7'], ['any', 'a b'], ['any', '1x'], ['any', 'é'], ['macro', 'EFOO'],
